@@ -170,6 +170,34 @@ theorem verdict_spelling_invariant (sem : Sem A P) (cfg : Cfg P) (s₁ s₂ : St
     handleQuery sem cfg s₁ = handleQuery sem cfg s₂ :=
   verdict_depends_on_normal_form sem cfg s₁ s₂ hp (fun qs h => absurd h (hno qs))
 
+/-! ## table rules -/
+
+/-- **Deny by table, top level** (`_partial`: the extra hypothesis is exactly the complement of the known finding's
+input class `table-rule-nested`): a SELECT that has a table of a deny handler's list as a plain member of its
+top-level FROM list is denied, provided nothing in front of that handler decides. -/
+theorem deny_table_denies_partial (cfg : Cfg Tree) (s : Stmt Tree) (p : Parsed Tree) (pre post : List (Handler Tree)) (r : Rules Tree)
+    (pat : Tree → Tree → Bool) (x : Tree)
+    (hcfg : cfg.handlers = pre ++ .deny r :: post) (hp : s.parsed = some p)
+    (hpre : ∀ h ∈ pre, h.check ⟨tablesMatch, pat⟩ s = .next)
+    (hk : p.ast.kind = "Select") (hx : x ∈ ((p.ast.field "From").getD Tree.nil).kids)
+    (hxk : x.kind = "AliasedTableExpr") (he : ((x.field "Expr").getD Tree.nil).kind = "TableName")
+    (hin : r.tables.contains (tableNameStr ((x.field "Expr").getD Tree.nil)) = true) :
+    handleQuery ⟨tablesMatch, pat⟩ cfg s = .deny := by
+  apply deny_match_denies ⟨tablesMatch, pat⟩ cfg s p pre post r hcfg hp hpre
+  refine Or.inr (Or.inl ⟨tablesMatch_top_level p.ast x r.tables hk hx hxk he hin, ?_⟩)
+  intro hnil
+  simp [hnil] at hin
+
+/-- The full statement ("by a table it reads from") fails on the current code: a table read through a sub-select is
+not reported (`select id from pub where id in (select id from secret)` against the table rule `secret`) – known
+finding `table-rule-nested`, replayed on the real `CheckTableNamesMatch` by the regression corpus. -/
+theorem deny_table_nested_counterexample :
+    let sub := Match.selectOf [Match.aliased (Match.cName "id")] [Match.aliasedTable "secret"] Tree.nil
+    let wh := Match.whereOf (.node "ComparisonExpr" [Match.lf "in", Match.cName "id", .node "Subquery" [sub], Tree.nil])
+    let stmt := Match.selectOf [Match.aliased (Match.cName "id")] [Match.aliasedTable "pub"] wh
+    tablesMatch stmt ["secret"] = (false, false) ∧ tablesMatch sub ["secret"] = (true, true) := by
+  decide
+
 /-! ## patterns -/
 
 /-- **All comparisons succeed ⇒ the handler returns true** – for every field-by-field comparator of the current
